@@ -97,7 +97,7 @@ func c04Work(w *h.W) {
 func init() {
 	h.Register(&h.Check{
 		ID: "C04",
-		Rule: "all catch/throw skeletons: predicate t/2 whose clause body is every sequence of <= L items over 33 item shapes (generators tracing entry/redo, cut, user balls sharing variables with the goal, built-in errors, unknown procedures, catch/3 that exits deterministically or with choice points, nested catches with matching / non-matching catchers, rethrow from Recovery, catch inside \\+ and findall, cut inside the protected goal) run in 9 contexts (uncaught, caught outside with matching/non-matching catcher, inside findall, after older choice points, throw after the catch exited, \\+) plus the body as a query, as a directive and as an initialization goal (the Go error must carry the ball). Non-trivial = the reference yields an answer or error.",
+		Rule: "all catch/throw skeletons: predicate t/2 whose clause body is every sequence of <= L items over 41 item shapes (generators tracing entry/redo, cut, user balls sharing variables with the goal, built-in errors, unknown procedures, catch/3 that exits deterministically or with choice points, nested catches with matching / non-matching catchers, rethrow from Recovery, catch inside \\+ and findall, cut inside the protected goal) run in 9 contexts (uncaught, caught outside with matching/non-matching catcher, inside findall, after older choice points, throw after the catch exited, \\+) plus the body as a query, as a directive and as an initialization goal (the Go error must carry the ball). Non-trivial = the reference yields an answer or error.",
 		Explanation: "state = one skeleton program in a fresh real interpreter; transition = one context query / directive; compared: answer sequence, output trace (which goals ran, which recoveries ran), and the final error term (formal part; the context argument is implementation defined)",
 		Assumptions: []string{"reference machine ref/solve: catch frames are choice points with a trailed 'active' flag (deactivated on exit of the goal, re-activated by backtracking into it), ball copied at throw time, bindings undone to the catch's trail mark (ISO 7.8.9; self-checked against the ISO examples)"},
 		Work:        c04Work,
